@@ -4,8 +4,10 @@ Helper lemmas for the DNS codec theorems (Props/C04Dns.lean).
 -/
 namespace PyatvModel.C04.Dns
 
-/-- a label the wire format can carry: 1..63 bytes (RFC 1035 §2.3.4) -/
-def LabelOk (l : Bytes) : Prop := 0 < l.length ∧ l.length ≤ 63
+/-- a label the wire format can carry: 1..63 bytes (RFC 1035 §2.3.4) of valid UTF-8 (what
+    `str.encode` produces), not starting with the ACE prefix "xn--" (those are IDNA-decoded on
+    receipt: a parameter of the model). -/
+def LabelOk (l : Bytes) : Prop := 0 < l.length ∧ l.length ≤ 63 ∧ utf8Valid l = true ∧ isAce l = false
 
 instance (l : Bytes) : Decidable (LabelOk l) := by unfold LabelOk; infer_instance
 
@@ -45,7 +47,7 @@ theorem encName_eq (ls : List Bytes) (h : LabelsOk ls) : encName ls = encLabels 
   | cons l ls ih =>
     have hl : LabelOk l := h l (by simp)
     have ih := ih (fun x hx => h x (by simp [hx]))
-    simp only [encName, encLabels, truncLabel_of_le l hl.2]
+    simp only [encName, encLabels, truncLabel_of_le l hl.2.1]
     rw [if_neg (by have := hl.1; omega), ih]
     simp
 
@@ -69,7 +71,7 @@ theorem parseNameF_labels (msg : Bytes) (ls : List Bytes) (h : LabelsOk ls) :
     intro f pos acc ret Y hd
     have hl : LabelOk l := h l (by simp)
     have ih := ih (fun x hx => h x (by simp [hx]))
-    obtain ⟨h0, h63⟩ := hl
+    obtain ⟨h0, h63, hutf, hace⟩ := hl
     have hn : (UInt8.ofNat l.length).toNat = l.length := toNat_ofNat_lt _ (by omega)
     simp only [encLabels, List.cons_append] at hd
     have hb := readByte_of_drop hd
@@ -82,10 +84,11 @@ theorem parseNameF_labels (msg : Bytes) (ls : List Bytes) (h : LabelsOk ls) :
     rw [show f + (l :: ls).length = (f + ls.length) + 1 by simp; omega]
     simp only [parseNameF, hb, hn]
     rw [if_neg (by omega), if_neg (by omega), if_pos (by omega)]
-    simp only [hlabel]
+    simp only [hlabel, hace, hutf]
     rw [ih _ _ _ _ _ hnext]
     simp only [encLabels, List.length_cons, List.length_append, List.append_assoc, List.singleton_append]
     rw [show pos + 1 + l.length + (encLabels ls).length = pos + (l.length + (encLabels ls).length + 1) by omega]
+    simp
 
 theorem parseNameF_zero {msg : Bytes} {pos : Nat} {Y : Bytes} (f : Nat) (acc : List Bytes)
     (ret : Option Nat) (h : msg.drop pos = 0 :: Y) :
@@ -418,5 +421,36 @@ theorem unpackMany_flatMap {α : Type} (f : Bytes → Nat → Res α) (enc : α 
     simp only [List.length_cons, unpackMany, hf x pos _ (hp x (by simp)) hd,
       ih _ Y (fun y hy => hp y (by simp [hy])) h1]
     simp [Nat.add_assoc]
+
+/-! ### encoder = reference, record by record -/
+
+theorem flatMap_congr' {α : Type} {l : List α} {f g : α → Bytes} (h : ∀ x ∈ l, f x = g x) :
+    l.flatMap f = l.flatMap g := by
+  induction l with
+  | nil => rfl
+  | cons x xs ih => simp [h x (by simp), ih (fun y hy => h y (by simp [hy]))]
+
+theorem packQuestion_eq_ref (q : Question) (h : QuestionOk q) : packQuestion q = Ref.question q := by
+  simp [packQuestion, Ref.question, refName_eq _ h.1, refBe2 _ h.2.1, refBe2 _ h.2.2]
+
+theorem packRaw_eq_ref (r : Resource) (h : ResourceOk r) :
+    packRaw ⟨r.name, r.qtype, r.qclass, r.ttl, Ref.rdata r.rd⟩ = Ref.rr r := by
+  obtain ⟨hn, ht, hc, httl, hlen, hlt, _⟩ := h
+  simp [packRaw, Ref.rr, refName_eq _ hn, refBe2 _ ht, refBe2 _ hc, refBe4 _ httl, ← hlen, refBe2 _ hlt]
+
+theorem packAnswer_eq_ref (r : Resource) (h : AnswerOk r) :
+    packAnswer ⟨r.name, r.qtype, r.qclass, r.ttl, r.rd.nameOf⟩ = Ref.rr r := by
+  obtain ⟨⟨hn, ht, hc, httl, hlen, hlt, hrd⟩, h12⟩ := h
+  cases hr : r.rd with
+  | name ls =>
+    rw [hr] at hrd hlen
+    have hl : LabelsOk ls := hrd.2
+    simp only [Ref.rdata, refName_eq ls hl] at hlen
+    simp [packAnswer, Ref.rr, hr, RData.nameOf, Ref.rdata, refName_eq _ hn, refName_eq _ hl, refBe2 _ ht,
+      refBe2 _ hc, refBe4 _ httl, ← hlen, refBe2 _ hlt]
+  | a ip => rw [hr] at hrd; exact absurd hrd.1 (by omega)
+  | srv p w port t => rw [hr] at hrd; exact absurd hrd.1 (by omega)
+  | txt kvs => rw [hr] at hrd; exact absurd hrd.1 (by omega)
+  | raw bs => rw [hr] at hrd; exact absurd hrd.2.1 (by omega)
 
 end PyatvModel.C04.Dns
